@@ -186,6 +186,12 @@ pub fn c12(ctx: &Ctx) -> PropResult {
         let k = 1 + g.rng.below(4);
         all_programs.push(("random", g.program(k)));
     }
+    // (appended) backslash sequences inside string literals reach the lexer as written in every mode; a DISPLAYF that
+    // fails has displayed nothing of its line
+    all_programs.push(("bytes", "DISPLAY(\"C:\\\\users\\\\nina\")\nDISPLAY(\"a\\nb\")\nDISPLAY(\"t\\\\tx\")\n".into()));
+    all_programs.push(("bytes", "x <- \"\\\\n\"\nDISPLAY(LENGTH(x))\nDISPLAY(x)\n".into()));
+    all_programs.push(("runtime", "IMPORT MOD \"IO\"\nDISPLAY(\"before\")\nDISPLAYF(\"sum of {} and {} is {}\", [1, 2])\nDISPLAY(\"after\")\n".into()));
+    all_programs.push(("runtime", "IMPORT MOD \"IO\"\nDISPLAYF(\"{} {}\", [])\n".into()));
     // statements after a RETURN in the same block (a linter's favourite): nothing about them reaches standard output
     all_programs.push(("ok", "PROCEDURE f() {\n RETURN 1\n DISPLAY(\"dead\")\n}\nDISPLAY(f())\n".into()));
     all_programs.push(("ok", "PROCEDURE f(x) {\n IF (x) {\n  RETURN \"t\"\n  x <- 0\n }\n RETURN \"f\"\n RETURN \"dead\"\n}\nDISPLAY(f(TRUE) + f(FALSE))\nunused <- 5\n".into()));
@@ -418,7 +424,7 @@ pub fn c12(ctx: &Ctx) -> PropResult {
     let stats = collect(verdicts);
     PropResult {
         stats,
-        rule: format!("{} programs (succeeding, lexical / syntax / runtime errors, robot-wall termination, reading INPUT, imports with a bracketed list, random programs) x {{file, -e, --eval-stdin}} x six --debug modes x --check x stdin empty / two lines; the real binary built from /repo without the hook feature is spawned twice per configuration; compared with the model's decision: exit status zero / non-zero, standard-output bytes, diagnostics present on standard error; implementation-only: --check prints nothing, two runs agree; the empty, blank, newline-only, comment-only and `;` programs in every mode, -e included; --check together with every --debug mode (nothing on standard output, nothing executed: a program that creates a file); EXPORT in programs nobody imports; a program in a sub-directory using cwd-relative FS paths, before and after importing a module from elsewhere; statements after RETURN in the same block", all_programs.len()),
+        rule: format!("{} programs (succeeding, lexical / syntax / runtime errors, robot-wall termination, reading INPUT, imports with a bracketed list, random programs) x {{file, -e, --eval-stdin}} x six --debug modes x --check x stdin empty / two lines; the real binary built from /repo without the hook feature is spawned twice per configuration; compared with the model's decision: exit status zero / non-zero, standard-output bytes, diagnostics present on standard error; implementation-only: --check prints nothing, two runs agree; the empty, blank, newline-only, comment-only and `;` programs in every mode, -e included; --check together with every --debug mode (nothing on standard output, nothing executed: a program that creates a file); EXPORT in programs nobody imports; a program in a sub-directory using cwd-relative FS paths, before and after importing a module from elsewhere; statements after RETURN in the same block; backslash sequences inside string literals in every mode; a failing DISPLAYF after text", all_programs.len()),
         exhaustive: false,
         notes: vec![format!("binary: {BINARY}")],
     }
@@ -555,6 +561,13 @@ pub fn c19(ctx: &Ctx) -> PropResult {
             }
         }
     }
+    // (appended) contents of every kind incl. a native object and lists holding one; names that begin with a dot
+    for val in ["MAP()", "[MAP(), 1]", "[[NULL], TRUE]", "\"\""] {
+        histories.push(format!("{pre}IMPORT MOD \"MAP\"\nDISPLAY(FILE_CREATE(\"f1\"))\nDISPLAY(FILE_OVERWRITE(\"f1\", \"data\"))\nDISPLAY(FILE_APPEND(\"f1\", {val}))\nDISPLAY([FILE_READ(\"f1\")])\nDISPLAY(FILE_OVERWRITE(\"f1\", {val}))\nDISPLAY([FILE_READ(\"f1\")])\nDISPLAY(FILE_APPEND(\"nope\", {val}))\n"));
+    }
+    for name in [".hidden", "d/.h", "d/..h", "d/.d/f", "d/a.b", "d/.", "d/h."] {
+        histories.push(format!("{pre}DISPLAY(DIRECTORY_CREATE_ALL(\"d/.d\"))\nDISPLAY(FILE_CREATE(\"{name}\"))\nDISPLAY(PATH_IS_FILE(\"{name}\"))\n{}{}DISPLAY(DIRECTORY_REMOVE(\"d/.d\"))\n{}", stmt("DIRECTORY_READ", "d", ""), stmt("DIRECTORY_READ", "d/.d", ""), stmt("DIRECTORY_READ", "d", "")));
+    }
     // files larger than the usual buffer sizes (64 KiB, 128 KiB), with a multi-byte character across the boundary
     for (doublings, lead) in [(16u32, ""), (16, "é"), (16, "xé"), (17, ""), (17, "中"), (15, "")] {
         histories.push(format!("{pre}s <- \"0123456789abcdef\"\nREPEAT {} TIMES {{\ns <- s + s\n}}\ns <- \"{lead}\" + s + \"end\"\nDISPLAY(LENGTH(s))\nDISPLAY(FILE_CREATE(\"big\"))\nDISPLAY(FILE_OVERWRITE(\"big\", s))\nr <- FILE_READ(\"big\")\nDISPLAY(r == NULL)\nDISPLAY(LENGTH(r))\nDISPLAY(r == s)\nDISPLAY(FILE_APPEND(\"big\", \"tail\"))\nr2 <- FILE_READ(\"big\")\nDISPLAY(LENGTH(r2))\nDISPLAY(r2 == s + \"tail\")\nDISPLAY(FILE_REMOVE(\"big\"))\n", doublings - 4));
@@ -623,7 +636,7 @@ pub fn c19(ctx: &Ctx) -> PropResult {
     let stats = collect(verdicts);
     PropResult {
         stats,
-        rule: "histories of the 13 FS procedures over path names {f1, f2, d, d/f, d/e, d/e/g, \"\", ., d/, ./f1, nope/x, f1/x} with contents of every value kind, each in a fresh temporary directory, run by the real binary: all histories of length 2 over 6 paths with and without a creation prefix (quick: a sample), random histories of length 3-30, every FS procedure on every argument exemplar; after each history the standard output (every result; DIRECTORY_READ as a multiset) and a full snapshot of the directory tree with file contents are compared with the file-system model; read / change keeping the length (4 ways, 2 spellings) / read again; a directory made, its ancestor removed (8 spellings), made again and used; texts of 32 KiB, 64 KiB + and 128 KiB + written, read back and appended to; directories holding only empty directories; an existing empty file".into(),
+        rule: "histories of the 13 FS procedures over path names {f1, f2, d, d/f, d/e, d/e/g, \"\", ., d/, ./f1, nope/x, f1/x} with contents of every value kind, each in a fresh temporary directory, run by the real binary: all histories of length 2 over 6 paths with and without a creation prefix (quick: a sample), random histories of length 3-30, every FS procedure on every argument exemplar; after each history the standard output (every result; DIRECTORY_READ as a multiset) and a full snapshot of the directory tree with file contents are compared with the file-system model; read / change keeping the length (4 ways, 2 spellings) / read again; a directory made, its ancestor removed (8 spellings), made again and used; texts of 32 KiB, 64 KiB + and 128 KiB + written, read back and appended to; directories holding only empty directories; an existing empty file; native objects and lists holding them as contents; names that begin with a dot".into(),
         exhaustive: !ctx.quick(),
         notes: vec![],
     }
